@@ -147,12 +147,16 @@ class GeomMonitor(taps.Monitor):
             return None
         if self.name in ("tri_normals", "vertex_normals") and m.n_dims != 3:
             return None   # normals are documented as 3D only (refusal is checked by the workload)
-        return {}
+        return {"pts": m.points.copy(), "tl": np.array(m.trilist, copy=True)}
 
     def post(self, ctx, st, args, kw, r, exc):
         m = args[0]
         cls = type(m).__name__
-        p, tl = m.points.astype(float), np.asarray(m.trilist)
+        # a query is a query: the mesh holds the coordinates and triangles it held before (the reference below is computed from
+        # those, not from whatever the mesh holds now)
+        if m.points.shape != st["pts"].shape or m.points.dtype != st["pts"].dtype or not np.array_equal(m.points, st["pts"]) or not np.array_equal(np.asarray(m.trilist), st["tl"]):
+            ctx.fail("geometry_query_modified_the_mesh", cls=cls, mech=self.name)
+        p, tl = st["pts"].astype(float), st["tl"]
         scale = max(1e-12, float(np.abs(p).max()))
         # results are computed in the mesh's own precision
         ntol = 2e-5 if m.points.dtype == np.float32 else 1e-8
@@ -473,6 +477,17 @@ def w_geometry(ctx, rng, i):
     msc = UniformScale(s, d).apply(m)
     a0, a1, a2 = m.tri_areas(), mr.tri_areas(), msc.tri_areas()
     l0, l1, l2 = m.edge_lengths(), mr.edge_lengths(), msc.edge_lengths()
+    # the moved mesh rebuilt from its coordinate vector on the original mesh (same triangles, attributes): the same mesh as the
+    # moved one - whatever type the original's coordinates had
+    try:
+        mv = m.from_vector(np.asarray(mr.as_vector(), dtype=float))
+        ctx.tap("moved_mesh_through_its_vector", "calls"); ctx.tap("moved_mesh_through_its_vector", "checked")
+        if mv.points.shape != mr.points.shape or _amax(np.asarray(mv.points, dtype=float) - np.asarray(mr.points, dtype=float)) > 0:
+            ctx.fail("areas_change_under_rigid_motion", cls=cls, mech="%dD:rebuilt_from_the_coordinate_vector:%s" % (d, m.points.dtype.kind), err=_amax(np.asarray(mv.points, dtype=float) - np.asarray(mr.points, dtype=float)))
+        else:
+            mv.tri_areas(); mv.edge_lengths()
+    except NotImplementedError:
+        pass
     scale = float(np.abs(m.points).max() + np.abs(tvec).max())
     ea = np.abs(a1 - a0).max() / scale ** 2
     el = np.abs(l1 - l0).max() / scale
